@@ -27,6 +27,9 @@ pub enum Fault {
   All { pos: u16 },
   /// a whole field replaced by the same field of another share in the collection
   Transplant { pos: u16, from: u16, field: u16 },
+  /// a whole field element (x or a y) or the whole of C / D / J overwritten with a special value:
+  /// 0 = all zero, 1 = the integer one, 2 = p-1 (elements) / all 0xFF, 3 = all 0xFF
+  Special { pos: u16, field: u16, val: u8 },
 }
 
 #[derive(Clone, Debug, Serialize, Deserialize)]
@@ -52,6 +55,7 @@ fn fault(all_weight: u32) -> BoxedStrategy<Fault> {
     3 => (prop_oneof![2 => Just(0u16), 3 => any::<u16>()], prop_oneof![0u32..10, Just(u32::MAX), Just(1u32 << 31)]).prop_map(|(pos, value)| Fault::Threshold { pos, value }),
     all_weight => prop_oneof![2 => Just(0u16), 3 => any::<u16>()].prop_map(|pos| Fault::All { pos }),
     3 => (prop_oneof![2 => Just(0u16), 3 => any::<u16>()], any::<u16>(), any::<u16>()).prop_map(|(pos, from, field)| Fault::Transplant { pos, from, field }),
+    4 => (prop_oneof![3 => Just(0u16), 2 => any::<u16>()], any::<u16>(), 0u8..4).prop_map(|(pos, field, val)| Fault::Special { pos, field, val }),
   ]
   .boxed()
 }
@@ -249,6 +253,36 @@ fn oracle(c: &Case, st: &mut Stats) -> Result<(), String> {
       }
       st.class(if p == 0 { "all-faults-on-first-share" } else { "all-faults-on-later-share" });
     }
+    Fault::Special { pos, field, val } => {
+      let p = idx(*pos, coll.len());
+      let mut enc = honest.clone();
+      if let Some(f) = layout::share_fields(&honest[p]) {
+        // candidate fields: x, each y, C, D, J
+        let mut fields: Vec<(&'static str, std::ops::Range<usize>, bool)> = vec![("x", f.x(), true)];
+        for i in 0..f.y_count() {
+          fields.push(("y", f.y(i), true));
+        }
+        for (n, r) in [("C", f.c.clone()), ("D", f.d.clone()), ("J", f.j.clone())] {
+          if !r.is_empty() {
+            fields.push((n, r, false));
+          }
+        }
+        let (name, r, is_fe) = fields[idx(*field, fields.len())].clone();
+        let bytes: Vec<u8> = match (val % 4, is_fe) {
+          (0, _) => vec![0u8; r.len()],
+          (1, _) => {
+            let mut v = vec![0u8; r.len()];
+            v[0] = 1;
+            v
+          }
+          (2, true) => crate::bigmodel::le24(&(crate::bigmodel::p() - 1u32)).to_vec(),
+          _ => vec![0xFFu8; r.len()],
+        };
+        enc[p][r].copy_from_slice(&bytes);
+        st.class(&format!("special-value-field={name}:{}", val % 4));
+        judge(&enc, Some(p), &format!("field {name} of share {p} overwritten with special value {}", val % 4), st)?;
+      }
+    }
     Fault::Transplant { pos, from, field } => {
       let p = idx(*pos, coll.len());
       let q = idx(*from, coll.len());
@@ -283,7 +317,7 @@ pub fn property() -> Property {
   Property {
     id: "C05",
     level: "fault_enumeration",
-    rule: "1-4 ADSS sharings (t in 1..8, distinct message/coins, optional twin with equal message and other coins / equal inputs and other threshold / zero-extended message), a collection built by a generated interleaving with repetition, then no fault, one fault (field x offset x 12 kinds) on the share at a generated position, a rewritten threshold, a field transplanted from another share, or ALL offsets x ALL kinds on one share; decoded through adss::Share::from_bytes or sta_rs::Share::from_bytes. Oracle: result is Err (decode rejection counts) or Ok(message of the sharing of collection[0]); a changed first share must give Err (exemption: only x altered at t = 1). Non-trivial: >= 2 sharings interleaved before the first threshold is complete, or a fault present; distinct by (collection, fault).",
+    rule: "1-4 ADSS sharings (t in 1..8, distinct message/coins, optional twin with equal message and other coins / equal inputs and other threshold / zero-extended message), a collection built by a generated interleaving with repetition, then no fault, one fault (field x offset x 12 kinds) on the share at a generated position, a rewritten threshold, a field transplanted from another share, a whole field overwritten with a special value (0, 1, p-1, all 0xFF), or ALL offsets x ALL kinds on one share; decoded through adss::Share::from_bytes or sta_rs::Share::from_bytes. Oracle: result is Err (decode rejection counts) or Ok(message of the sharing of collection[0]); a changed first share must give Err (exemption: only x altered at t = 1). Non-trivial: >= 2 sharings interleaved before the first threshold is complete, or a fault present; distinct by (collection, fault).",
     assumptions: vec![
       "share points come from OsRng",
       "altering x when t = 1 yields another honest share of the same constant polynomial and is not demanded to be rejected",
